@@ -13,7 +13,7 @@ P: an independent python oracle (c09_gen.py: X.680 set semantics by membership o
 """
 import json, os, re, shutil, subprocess, tempfile
 from concurrent.futures import ThreadPoolExecutor
-from .. import build, core
+from .. import build, core, bundle
 from . import c09_gen as G
 
 UNIVERSE = list(range(-2, 6))
@@ -625,6 +625,93 @@ def run(ctx):
                       {"type_a": ref.text, "type_b": c.text, "tables_a": a, "tables_b": b})
     ctx.log("P: %d cases, %d failing (%s known), %d unexplained; same-set pairs %d, failures %d" %
             (np_, len(pf), region, len(unexplained), npairs, len(same_fail)))
+    encoding_leg(ctx, groups)
+
+# ------------------------------------------------------------------------------ E leg (optional clause)
+
+def root_values(c):
+    """values in the root (boundary first) and, for extensible types, next to it"""
+    ev = c.ev
+    runs = ev.root.runs()
+    vals = []
+    for lo, hi in runs:
+        for x in (lo, hi):
+            if x is not None: vals.append((x, True))
+        if lo is not None and hi is not None and hi - lo > 2: vals.append((lo + 1, True))
+        if lo is None and hi is not None: vals += [(hi - 3, True), (hi - 200, True)]
+        if hi is None and lo is not None: vals += [(lo + 3, True), (lo + 200, True)]
+    if not runs or (runs[0][0] is None and runs[0][1] is None): vals += [(0, True), (-129, True), (70000, True)]
+    if ev.ext:
+        for lo, hi in runs:
+            if lo is not None and (lo - 1) not in ev.root.mem: vals.append((lo - 1, False))
+            if hi is not None and (hi + 1) not in ev.root.mem: vals.append((hi + 1, False))
+    out = []; seen = set()
+    for v, inr in vals:
+        if v in seen or abs(v) > 2**31 - 2: continue
+        if c.kind == "size" and (v < 0 or v > 40): continue
+        seen.add(v); out.append((v, inr))
+    return out[:14]
+
+def encoding_leg(ctx, groups):
+    """'two definitions whose constraints denote the same root set and extensibility encode every
+    value identically': compile some same-set groups and compare UPER and OER octets."""
+    rng = ctx.rng
+    cand = [g for g in groups.values() if len(g) > 1 and g[0].ty in ("INTEGER", "OCTET") and g[0].tag not in ("big", "big-edge", "big-size")
+            and not g[0].ev.has_except and all(not m.ev.has_except and m.ty == g[0].ty for m in g)]
+    rng.shuffle(cand)
+    cand = cand[:50 if ctx.quick else 400]
+    members = []
+    for g in cand:
+        ms = [g[0], g[-1]] + ([g[len(g) // 2]] if len(g) > 2 else [])
+        members.append(ms)
+    if not members:
+        return
+    flat = [m for ms in members for m in ms]
+    names = []
+    text = ["C09E DEFINITIONS ::= BEGIN"]
+    for m in flat:
+        for li in range(len(m.levels)): text.append(type_text(m, m.name, li))
+        names.append(m.name)
+    text.append("END")
+    b = bundle.Bundle("c09e", "\n".join(text) + "\n", names)
+    try:
+        exe = b.build()
+        lines = []; owner = []
+        for gi, ms in enumerate(members):
+            vals = root_values(ms[0])
+            for v, inr in vals:
+                sx = "(int %d)" % v if ms[0].kind == "int" else "(os %s)" % ("ab" * v if v else "-")
+                for syn in ("uper", "oer"):
+                    lbv, ubv = ms[0].ev.vis.lb(), ms[0].ev.vis.ub()
+                    if syn == "uper" and ms[0].kind == "int" and lbv is not None and lbv != 0 and ubv is None:
+                        continue     # INTEGER_encode_uper refuses semi-constrained types with lb != 0 (known finding F42 of C01)
+                    for m in ms:
+                        lines.append("@%s enc %s %s" % (m.name, syn, sx)); owner.append((gi, v, syn, m, inr))
+        outs, crashes = ctx.run_c_bisect(exe, lines)
+    finally:
+        b.cleanup()
+    table = {}
+    for (gi, v, syn, m, inr), o in zip(owner, outs):
+        o = o if str(o).startswith("ok ") else "fail"       # errno text / sanitizer reports of the harness are not compared
+        table.setdefault((gi, v, syn), []).append((m, o, inr))
+    diff = []; nok = 0; nfail = 0
+    for (gi, v, syn), lst in table.items():
+        o0 = lst[0][1]
+        if any(o != o0 for _, o, _ in lst[1:]): diff.append((v, syn, lst))
+        if lst[0][2]:
+            if str(o0).startswith("ok"): nok += 1
+            else: nfail += 1
+    ctx.cov["evaluations"] += len(lines)
+    ctx.cov["predicate"]["encoding"] = {"groups": len(members), "types": len(flat), "encodings": len(lines),
+                                        "compared": len(table), "different": len(diff), "in_root_ok": nok,
+                                        "in_root_encode_failed": nfail, "c_crashes": crashes}
+    for v, syn, lst in diff[:3]:
+        ctx.violation("C09 same root set and extensibility, different %s encoding of %d: %s" %
+                      (syn, v, " / ".join("%s -> %s" % (m.text, o) for m, o, _ in lst)),
+                      {"value": v, "syntax": syn, "types": [m.text for m, _, _ in lst], "outputs": [o for _, o, _ in lst],
+                       "module": module_text([m for m, _, _ in lst])})
+    ctx.log("E: %d groups, %d encodings, %d compared, %d different (in-root ok %d, encode failed %d)" %
+            (len(members), len(lines), len(table), len(diff), nok, nfail))
 
 def replay(ctx, path):
     r = json.load(open(path))
